@@ -54,6 +54,8 @@ def key(conj, rec):
                         bad.append("%s(%s)" % (k, cls))
                 break
         return "%s:%s:%s:tz=%s" % (conj, rec["type"], ",".join(sorted(set(bad))) or rec["enc"]["t"], rec.get("tz"))
+    if rec["fn"] == "hold":
+        return "%s:hold:%s:%s" % (conj, rec["dir"], rec["type"])
     return "%s:%s" % (conj, rec["fn"])
 
 
@@ -65,7 +67,7 @@ def run(tier, replay=None):
         os.environ["VERIF_SEED"] = str(info.get("seed", vflib.seed()))
         rec = info["record"]
         summ = common.harness_traces("c05", info.get("tier", tier), shards=1, env={"TZ": rec.get("tz") or "UTC"},
-                                     extra_args=["-x", "slack=%s;dispatch=%s;only=%s" % (slack, "1" if rec["fn"] == "dispatch" else "0", rec["k"])])
+                                     extra_args=["-x", "slack=%s;dispatch=%s;only=%s" % (slack, "1" if rec["fn"] in ("dispatch", "hold") else "0", rec["k"])])
         common.validate(v, "Trace_Codec", "Trace_Codec.cfg", summ, key)
         return v.finish(write_evidence=False)
     v = Verdict(PROP, tier, "model_checking")
